@@ -23,14 +23,24 @@ def check(cx):
                  "mark_dirty; with_bytes_mut (raw mutable bytes) is used only by the write-back sites", floor=5)
     wl = FR + "WriteLatch::<P>::new"
     cx.guard(r1, wl, p.fn, wl)
-    for c in K.sites(p, wl):
+    def latch_site(c, depth=0):
         f = c.fn
         ok_owner = f.impl_trait == "std::convert::TryFrom" and "WriteLatch" in (f.impl_self or "")
+        if not ok_owner and depth < 2 and f.kind != "closure" and f.id in p.raw_fns:
+            # a helper of the frame module that only takes the latch (called, or handed to `Option::map` as a function item):
+            # the obligation moves to every place that uses the helper - each an owner, each behind mark_dirty
+            refs = [r for r in p.call_sites_of(f.id) if (r.fn.root or r.fn.id) != f.id]
+            if refs and all(r.fn.file == f.file for r in refs):
+                for r in refs:
+                    latch_site(r, depth + 1)
+                return
         md = [x for x in f.calls() if x.callee == FR + "MemFrame::mark_dirty"]
         good = ok_owner and bool(md) and any(f.dominates(m.bb, c.bb) for m in md)
         cx.verdict(good, r1, "latch@" + f.id, c.where(), "mark_dirty dominates WriteLatch::new",
                    "a write latch is handed out without marking the frame dirty: the modification is lost when the "
                    "frame is evicted or at the next checkpoint")
+    for c in K.sites(p, wl):
+        latch_site(c)
     wbm = FR + "MemFrame::with_bytes_mut"
     cx.guard(r1, wbm, p.fn, wbm)
     ALLOWED = {K.PAGER_FLUSH: "checkpoint write-back", K.PAGER + "::cache_frame": "write-back of an evicted frame"}
